@@ -555,6 +555,14 @@ theorem lr_productions_match_tables :
       n == 0 || ((prodRhs n).length : Int) == (genTables.r2.get? n).getD (-1)) = true ∧
     (lhsPairs.all fun p => lhsPairs.all fun q => (p.1 == q.1) == (p.2 == q.2)) = true := by decide +kernel
 
+/-- The `mmDollar = mmS[mmpt-K : mmpt+1]` slice at the head of every action that
+uses `$i` takes exactly the right-hand side: K = `mmR2[n]` for every such
+production, so the slice is in range whenever the reduction does not pop below
+the bottom of the stack (`lr_checker_sound`). -/
+theorem lr_dollar_slices_match :
+    (Gen.mmDollarLen.all fun p => (genTables.r2.get? p.1) == some (p.2 : Int)) = true ∧
+    Gen.mmDollarLen.length > 0 := by decide +kernel
+
 /-- Regenerated obligation on the CONVERSION CALL SITES: the calls of parseInt /
 parseFloat / tryParseFloat32 / unquote in the actions of grammar.go now are
 exactly the ones the action model (Martian/LexerActions.lean `Site`) was written
@@ -660,7 +668,8 @@ theorem facts_extracted :
     Gen.mmPrivate_extracted = true ∧ Gen.mmFlag_extracted = true ∧ Gen.mmErrCode_extracted = true ∧
     Gen.mmEofCode_extracted = true ∧ Gen.mmNToknames_extracted = true ∧ Gen.mmNErrorMessages_extracted = true ∧
     Gen.mmFailProds_extracted = true ∧ Gen.mmPred_extracted = true ∧ Gen.mmRank_extracted = true ∧
-    Gen.mmProdBody_extracted = true ∧ Gen.mmProdRhs_extracted = true ∧ Gen.mmConvSites_extracted = true := by decide
+    Gen.mmProdBody_extracted = true ∧ Gen.mmProdRhs_extracted = true ∧ Gen.mmConvSites_extracted = true ∧
+    Gen.mmDollarLen_extracted = true := by decide
 
 /-! ### definitional unfoldings (documentation of the model, not guarantees) -/
 
